@@ -343,7 +343,7 @@ def canon_schedules():
         k.relay("Ack", "A", pk[0], ph, ack=["ok"] * len(pk[0]["data"]), canon=True)   # duplicate ack: no-op
         # a packet that times out: short height timeout (v1) / seconds timeout (v2)
         t = k.send("B", "v1", ["ok"], toT=0, toH=k.h["A"] + 2) if v1 else k.send("B", "v2", ["ok"], toT=(2 + len(k.s["acts"]) + 4) // 2 + 1)
-        for _ in range(3):
+        for _ in range(6):
             k._act("Block", "A")
         ph = k.sync("B")
         k.relay("Timeout", "B", t, ph, nsr=1)
